@@ -97,8 +97,14 @@ impl Backend {
             return Ok(None);
         };
 
-        // Find the matching definition by file path
-        let Some(definition) = defs.iter().find(|d| d.file_path == file_path) else {
+        // Find the definition the item was prepared for: same file and same line (a file can
+        // bind one fixture name several times); fall back to the file alone
+        let item_line = Self::lsp_line_to_internal(item.selection_range.start.line);
+        let Some(definition) = defs
+            .iter()
+            .find(|d| d.file_path == file_path && d.line == item_line)
+            .or_else(|| defs.iter().find(|d| d.file_path == file_path))
+        else {
             return Ok(None);
         };
 
@@ -175,8 +181,14 @@ impl Backend {
             return Ok(None);
         };
 
-        // Find the matching definition by file path
-        let Some(definition) = defs.iter().find(|d| d.file_path == file_path) else {
+        // Find the definition the item was prepared for: same file and same line (a file can
+        // bind one fixture name several times); fall back to the file alone
+        let item_line = Self::lsp_line_to_internal(item.selection_range.start.line);
+        let Some(definition) = defs
+            .iter()
+            .find(|d| d.file_path == file_path && d.line == item_line)
+            .or_else(|| defs.iter().find(|d| d.file_path == file_path))
+        else {
             return Ok(None);
         };
 
